@@ -77,6 +77,10 @@ class Concrete(object):
         k, n, dt = self.kind, self.n, self.dtype
         if k == 'tensor':
             return odl.tensor_space(self._shape(), dtype=dt)
+        if k == 'shapedt':
+            # shaped dtype: tensor_space(m, dtype=(dt, (2,))) has shape (2, m)
+            assert n % 2 == 0
+            return odl.tensor_space(n // 2, dtype=(dt, (2,)))
         if k == 'discr':
             shp = self._shape()
             return odl.uniform_discr([0] * len(shp), [1] * len(shp), shp, dtype=dt)
@@ -116,7 +120,7 @@ class Concrete(object):
         else:
             flat = np.full(n, fill, dtype=dt)
         sp = self.space
-        if self.kind in ('tensor', 'discr'):
+        if self.kind in ('tensor', 'discr', 'shapedt'):
             return sp.element(self._leaf_array(flat, sp.shape))
         return self._pspace_element(sp, flat)
 
@@ -133,7 +137,7 @@ class Concrete(object):
 
     # ---- projection -----------------------------------------------------
     def flat(self, x):
-        if self.kind in ('tensor', 'discr'):
+        if self.kind in ('tensor', 'discr', 'shapedt'):
             return np.asarray(x.asarray()).ravel(order='C')
         return self._pspace_flat(x)
 
